@@ -31,7 +31,7 @@ def lit(valjson):
 def render_arg(a):
     if "c" in a:
         return lit(a["c"])
-    parts = ["r%d" % i for i in a.get("r", [])] + list(a.get("p", []))
+    parts = ["r%d" % i for i in a.get("r", [])] + list(a.get("p", [])) + [repr(x) for x in a.get("l", [])]
     return "rt(%s)" % ", ".join(parts)
 
 
@@ -64,10 +64,10 @@ def render_fun(fn):
             head, rest = e.split("(", 1)
             parts = rest[:-1].split(", ")
             lines.append("    r%d = %s(" % (i, head))
-            item_lines.append(len(lines))
             for p in parts:
                 lines.append("        %s," % p)
             lines.append("    )")
+            item_lines.append(len(lines))      # the line where the call ENDS (what the analysis hashes up to)
         else:
             lines.append("    r%d = %s" % (i, e))
             item_lines.append(len(lines))
@@ -145,8 +145,8 @@ def model_world(world, extmod=None):
             if it["k"] == "keep":
                 d["args"] = [({"t": "other"} if "c" not in a else a["c"]) for a in it.get("args", [])]
                 d["kwargs"] = [[n, ({"t": "other"} if "c" not in a else a["c"])] for (n, a) in it.get("kwargs", [])]
-                d["rt"] = [({"r": a.get("r", []), "p": a.get("p", [])} if "c" not in a else None) for a in it.get("args", [])]
-                d["rtkw"] = [[n, ({"r": a.get("r", []), "p": a.get("p", [])} if "c" not in a else None)] for (n, a) in it.get("kwargs", [])]
+                d["rt"] = [({"r": a.get("r", []), "p": a.get("p", []), "l": a.get("l", [])} if "c" not in a else None) for a in it.get("args", [])]
+                d["rtkw"] = [[n, ({"r": a.get("r", []), "p": a.get("p", []), "l": a.get("l", [])} if "c" not in a else None)] for (n, a) in it.get("kwargs", [])]
             items.append(d)
         funs.append({
             "name": fn["name"], "lines": lines, "tag": fn["tag"],
@@ -413,7 +413,7 @@ def same_hash_class(a, b):
     return c05.canon(a, rules) == c05.canon(b, rules)
 
 
-EDIT_KINDS = ["body", "var", "const_arg", "unrelated_fun", "unrelated_var", "reorder", "ext", "revert", "delete_call", "whitespace"]
+EDIT_KINDS = ["body", "var", "const_arg", "unrelated_fun", "unrelated_var", "reorder", "ext", "revert", "delete_call", "whitespace", "rt_arg", "multiline"]
 
 
 def bump_tag(tag):
@@ -460,6 +460,21 @@ def apply_edit(rng, world, kind):
     if kind == "ext":
         w["ext_version"] = w.get("ext_version", 0) + 1
         return w, {"kind": kind}
+    if kind == "rt_arg":
+        sites = [(f, it, a) for f in w["funs"] for it in f["items"] if it["k"] == "keep"
+                 for a in list(it.get("args", [])) + [x for (_, x) in it.get("kwargs", [])] if "c" not in a]
+        if not sites:
+            return None
+        f, it, a = rng.choice(sites)
+        a["l"] = list(a.get("l", [])) + ["x%d" % len(a.get("l", []))]
+        return w, {"kind": "body", "fun": f["name"], "runtime_argument_of": it["path"]}
+    if kind == "multiline":
+        sites = [(f, it) for f in w["funs"] for it in f["items"] if it["k"] == "keep" and (it.get("args") or it.get("kwargs"))]
+        if not sites:
+            return None
+        f, it = rng.choice(sites)
+        it["multiline"] = not it.get("multiline")
+        return w, {"kind": "body", "fun": f["name"], "layout_of": it["path"]}
     if kind == "whitespace":
         f = rng.choice(w["funs"])
         f["ws"] = (not f["ws"]) if f.get("ws") is not None else True
